@@ -781,7 +781,7 @@ func checkLenValidator(c *Ctx, r *Run, rel, typ, method string) {
 			return
 		}
 		// the other accepted form: bytes.Equal(x, Z) with Z an all-zero buffer of exactly the valid length
-		if call, isCall := iff.Cond.(*ssa.Call); isCall && (isCallToPkgFunc(call, "bytes", "Equal")) && len(call.Call.Args) == 2 {
+		if call, eqOnTrue := bytesEquality(iff.Cond); call != nil && len(call.Call.Args) == 2 {
 			var z ssa.Value
 			if call.Call.Args[0] == ssa.Value(fn.Params[0]) || stripConv(call.Call.Args[0]) == ssa.Value(fn.Params[0]) {
 				z = call.Call.Args[1]
@@ -791,7 +791,11 @@ func checkLenValidator(c *Ctx, r *Run, rel, typ, method string) {
 			if z != nil {
 				if n, isZero := zeroBufferLen(c, fn, z); isZero {
 					// equal edge returns an error
-					for _, x := range iff.Block().Succs[0].Instrs {
+					eqSucc := iff.Block().Succs[0]
+					if !eqOnTrue {
+						eqSucc = iff.Block().Succs[1]
+					}
+					for _, x := range eqSucc.Instrs {
 						if ret, isR := x.(*ssa.Return); isR && len(ret.Results) == 1 && !isNilConst(ret.Results[0]) {
 							if lenK >= 0 && n != lenK {
 								zeroDetail = fmt.Sprintf("the value is compared with an all-zero buffer of %d bytes while its only valid length is %d: the comparison is never true and the all-zero value is accepted", n, lenK)
@@ -1193,8 +1197,8 @@ func checkCommit(c *Ctx, r *Run) {
 				}
 				continue
 			}
-			call, ok := ret.Results[0].(*ssa.Call)
-			if !ok || !isCallToPkgFunc(call, "bytes", "Equal") {
+			call, eqOnTrue := bytesEquality(ret.Results[0])
+			if call == nil || !eqOnTrue {
 				okEq = false
 				continue
 			}
@@ -1437,6 +1441,49 @@ func zeroBufferLen(c *Ctx, fn *ssa.Function, v ssa.Value) (int64, bool) {
 		}
 		return k, true
 	}
+	// a package-level fixed array that is never written, sliced in full: zeroBuf[:]
+	if sl, ok := v.(*ssa.Slice); ok && sl.Low == nil && sl.High == nil {
+		if g, ok := sl.X.(*ssa.Global); ok && g.Pkg == fn.Pkg {
+			if arr, isArr := derefType(g.Type()).Underlying().(*types.Array); isArr {
+				written := false
+				fns := funcsOfPkg(c, fn.Pkg)
+				if init := fn.Pkg.Func("init"); init != nil {
+					fns = append(fns, init)
+				}
+				for _, f := range fns {
+					allInstrs(f, func(in ssa.Instruction) {
+						switch x := in.(type) {
+						case *ssa.Store:
+							if x.Addr == ssa.Value(g) {
+								written = true
+							}
+						case *ssa.IndexAddr:
+							if x.X == ssa.Value(g) {
+								for _, ref := range *x.Referrers() {
+									if st, isSt := ref.(*ssa.Store); isSt && st.Addr == ssa.Value(x) {
+										written = true
+									}
+								}
+							}
+						case *ssa.Slice:
+							if x.X == ssa.Value(g) {
+								// handed out as a slice: only to comparison functions
+								for _, ref := range *x.Referrers() {
+									if call, isCall := ref.(*ssa.Call); !isCall || !(isCallToPkgFunc(call, "bytes", "Equal") || isCallToPkgFunc(call, "crypto/subtle", "ConstantTimeCompare")) {
+										written = true
+									}
+								}
+							}
+						}
+					})
+				}
+				if !written {
+					return arr.Len(), true
+				}
+			}
+		}
+		return 0, false
+	}
 	u, ok := v.(*ssa.UnOp)
 	if !ok || u.Op != token.MUL {
 		return 0, false
@@ -1487,4 +1534,40 @@ func madeLen(v ssa.Value) (int64, bool) {
 		}
 	}
 	return 0, false
+}
+
+// bytesEquality: cond decides whether two byte slices are equal: bytes.Equal(a, b), subtle.ConstantTimeCompare(a, b)
+// == 1 / != 1 (/ != 0), possibly negated. Returns the comparing call and whether cond is true exactly when they are equal.
+func bytesEquality(cond ssa.Value) (*ssa.Call, bool) {
+	eq := true
+	for i := 0; i < 4; i++ {
+		switch x := cond.(type) {
+		case *ssa.UnOp:
+			if x.Op != token.NOT {
+				return nil, false
+			}
+			eq, cond = !eq, x.X
+		case *ssa.Call:
+			if isCallToPkgFunc(x, "bytes", "Equal") {
+				return x, eq
+			}
+			return nil, false
+		case *ssa.BinOp:
+			call, ok := x.X.(*ssa.Call)
+			k, isK := constInt(x.Y)
+			if !ok || !isK || !isCallToPkgFunc(call, "crypto/subtle", "ConstantTimeCompare") {
+				return nil, false
+			}
+			switch {
+			case x.Op == token.EQL && k == 1, x.Op == token.NEQ && k == 0:
+				return call, eq
+			case x.Op == token.NEQ && k == 1, x.Op == token.EQL && k == 0:
+				return call, !eq
+			}
+			return nil, false
+		default:
+			return nil, false
+		}
+	}
+	return nil, false
 }
